@@ -258,6 +258,13 @@ static enum eventloop_return accept_common(struct io_event *ev, void (*peer_func
 		if (peer_fd == -1) {
 			if ((errno == EAGAIN) || (errno == EWOULDBLOCK)) {
 				return EL_CONTINUE_LOOP;
+			} else if ((errno == EINTR) || (errno == ECONNABORTED) || (errno == EPROTO)) {
+				/* Only this connection attempt is lost. */
+				continue;
+			} else if ((errno == EMFILE) || (errno == ENFILE) || (errno == ENOBUFS) || (errno == ENOMEM)) {
+				/* Out of resources for now: keep serving the established connections. */
+				log_err("accept failed: '%s'!\n", strerror(errno));
+				return EL_CONTINUE_LOOP;
 			} else {
 				return EL_ABORT_LOOP;
 			}
